@@ -15,7 +15,7 @@ import (
 )
 
 func init() {
-	register(&Prop{ID: "C19", N: 100000, Quick: 6000,
+	register(&Prop{ID: "C19", Witness: true, N: 100000, Quick: 6000,
 		Assume: []string{"reference = stdlib regexp; offsets at>0 through slicing for patterns without look-around, at=0 otherwise", "each fast path is judged only on patterns its own applicability test accepts (IsSimpleCharClassPlus, IsCompositeCharClassPattern, IsCompositeSequenceDFAPattern, IsBranchDispatchPattern, DetectAnchoredLiteral, ExtractFirstBytes) or, for the meta-level searchers, on patterns for which SelectStrategy returns that strategy"},
 		Rule:   "cases G(D,i) (exemplars of every strategy and their whitelist-boundary mutants), ASCII and valid-UTF-8 regions; direct searchers are built through their exported constructors and asked Search/SearchAt/IsMatch/FindAllIndices/Count at every offset <= 12; strategy-selected searchers are driven through meta.Engine.FindIndicesAt/IsMatch/Count at every offset; ExtractFirstBytes must contain the first byte of every reference match; one evaluation = one compared call; distinct_nontrivial = distinct (fast path, pattern, haystack, offset) with a reference match",
 		Triage: triageC19,
